@@ -1,6 +1,6 @@
 (* extract/Entry_E5d.v — entry points of the reference bookkeeping model (C08). *)
 From Coq Require Import ZArith QArith List String Bool.
-From Pico Require Import Num PyStr Value CheckPico Refs Noise Termination Entry_E5c.
+From Pico Require Import Num PyStr Value CheckPico Refs Noise Termination Shape Stroke Entry_E3 Entry_E5a Entry_E5b Entry_E5c.
 Import ListNotations.
 Local Open Scope string_scope.
 
@@ -67,6 +67,9 @@ Definition entry_E5d (orc : oracle) (name : string) (v : value) : option value :
           | Resolved d => VL [VS "resolved"; VQ (inject_Z (Z.of_nat d))]
           | Dangling d => VL [VS "dangling"; VQ (inject_Z (Z.of_nat d))]
           | RecursionError => VL [VS "recursion"] end)
+  else if name =? "dash_array" then Some (v_res (fun l => VL (map VQ l)) (dash_array (N:=QOps) (shape_of v)))
+  else if name =? "stroke_split" then
+    Some (v_res (fun l => VL (map v_shape l)) (stroke_split (QMath orc) (QSkia orc) (shape_of (arg 0 v)) (getQ (arg 1 v))))
   else if name =? "stroke_split_ids" then
     Some (VL (map v_optS (stroke_split_ids (optS_of (arg 0 v)) (getB (arg 1 v)))))
   else None.
